@@ -43,6 +43,11 @@ Class(line, bad, badsites) ==
    (* out that half-resolved document as a success; and the in-progress reference set keeps the references that were open when    *)
    (* the error struck, so ResolveRefsIn (which resets nothing on a used Loader) leaves those references unresolved.              *)
    ELSE IF line.c.entry \in {"file_abs_retry", "resolvein_retry"} /\ \A i \in DOMAIN badsites : badsites[i].got = "nil" THEN "failed_load_leaves_state"
+   (* F-C02-7: the visited-documents cache is never reset, so it survives from one load to the next: a document first met in an    *)
+   (* EARLIER load of the same Loader (entry file_abs_prior: every external file was loaded as a root of its own before) is handed   *)
+   (* out as that load left it -- resolved by halves when that load failed (whole_localdangling), or with a reference left nil       *)
+   (* because it was "in progress" in that load's context (crossdoc_local: the root met as an external document of a.json).          *)
+   ELSE IF line.c.entry = "file_abs_prior" /\ \A i \in DOMAIN badsites : badsites[i].got = "nil" THEN "cache_serves_earlier_load"
    \* F-C02-1 is repaired (9986135, d78e043, 326f29b): UnvisitedSite no longer names a class
    ELSE IF \A i \in DOMAIN badsites : Conflated(u, badsites[i]) THEN "raw_ref_string_conflation"
    ELSE IF \A i \in DOMAIN badsites : PureCycle(u, badsites[i]) THEN "pure_ref_cycle_left_unresolved"
